@@ -20,7 +20,9 @@ CAP_ATTRS = {"max_attempts", "per_class_max_attempts", "max_unknown_attempts"}
 COUNTER_ATTRS = {"per_class_counts", "unknown_attempts"}
 
 
-def op_calls_in(prog: Program, fi, body: list[ast.stmt]) -> list[ast.Call]:
+def op_calls_in(prog: Program, fi, body: list[ast.stmt], _seen: frozenset = frozenset()) -> list[ast.Call]:
+    """calls in `body` that invoke the operation: directly, through _call_with_timeout, or through a helper that is
+    handed the operation and invokes it (`_invoke_attempt(func, timeout)`), however deep"""
     out = []
     for st in body:
         for n in ast.walk(st):
@@ -28,7 +30,32 @@ def op_calls_in(prog: Program, fi, body: list[ast.stmt]) -> list[ast.Call]:
                 for t in prog.resolve_call(n, fi):
                     if (t.kind == "callback" and t.category == "operation") or (t.func is not None and t.func.qual.endswith(":_call_with_timeout")):
                         out.append(n)
+                    elif t.kind == "repo" and t.func is not None and t.func.qual not in _seen and t.func.qual not in RUNNERS.values():
+                        passes_op = any(any(a[0] == "cb" and a[1] == "operation" for a in prog.type_of(x, fi)) for x in list(n.args) + [k.value for k in n.keywords] if not isinstance(x, ast.Starred))
+                        if passes_op and op_calls_in(prog, t.func, t.func.node.body, _seen | {t.func.qual}):
+                            out.append(n)
     return out
+
+
+def op_use_ok(prog: Program, fi, n: ast.Name, parents: list[ast.Call], _depth: int = 0) -> bool:
+    """this load of the operation is its invocation, its hand-over to _call_with_timeout, or its hand-over to a helper
+    in which the like-bound parameter is again used only in these ways"""
+    for c in parents:
+        if c.func is n:
+            return True
+        tg = prog.resolve_call(c, fi)
+        if any(t.func is not None and t.func.qual.endswith(":_call_with_timeout") for t in tg) and c.args and c.args[0] is n:
+            return True
+        if _depth < 3 and len(tg) == 1 and tg[0].kind == "repo" and tg[0].func is not None and tg[0].func.qual not in RUNNERS.values():
+            g = tg[0].func
+            pos = g.positional_params()
+            pname = pos[c.args.index(n)] if n in c.args and c.args.index(n) < len(pos) else next((k.arg for k in c.keywords if k.value is n), None)
+            if pname is None:
+                continue
+            loads = [x for x in prog._own_nodes(g.node) if isinstance(x, ast.Name) and x.id == pname and isinstance(x.ctx, ast.Load)]
+            if loads and all(op_use_ok(prog, g, x, [cc for cc in prog._own_nodes(g.node) if isinstance(cc, ast.Call) and (cc.func is x or x in cc.args or any(k.value is x for k in cc.keywords))], _depth + 1) for x in loads):
+                return True
+    return False
 
 
 def check_loop(rep: Report, prog: Program) -> None:
@@ -78,6 +105,7 @@ def check_loop(rep: Report, prog: Program) -> None:
         else:
             rep.ok("R1.1")
     # ownership of the cap attributes / counters
+    written: set[str] = set()
     for m in prog.modules.values():
         for fi in [f for f in prog.funcs.values() if f.module is m]:
             for n in prog._own_nodes(fi.node):
@@ -88,6 +116,7 @@ def check_loop(rep: Report, prog: Program) -> None:
                     )
                     selfbase = isinstance(n.value, ast.Name) and n.value.id == "self"
                     rep.instance("R1.1", f"writer|{fi.qual}|{n.attr}")
+                    written.add(n.attr)
                     if owner_ok and selfbase:
                         rep.ok("R1.1")
                     else:
@@ -100,7 +129,9 @@ def check_loop(rep: Report, prog: Program) -> None:
                         rep.fail("R1.1", f"item-writer|{fi.qual}|{n.value.attr}", f"{fi.qual} writes an item of `{n.value.attr}`", where=fi.where(n), function=fi.qual)
                 if isinstance(n, ast.Call) and isinstance(n.func, ast.Name) and n.func.id in ("setattr", "delattr") and fi.module.name in RUN_MODULES:
                     rep.fail("R1.1", f"setattr|{fi.qual}", f"{fi.qual} uses {n.func.id}() on the run path", where=fi.where(n), function=fi.qual)
-    rep.floor("R1.1", 4 * 3 + 6)
+    if not CAP_ATTRS <= written:
+        raise AnalysisError(f"R1.1: no store to the cap attribute(s) {sorted(CAP_ATTRS - written)} found anywhere (anchor renamed?)")
+    rep.floor("R1.1", 4 * 3 + len(CAP_ATTRS))  # the four runners, and each cap written at least once (how many counter stores exist is the code's business)
 
 
 class InvocationClient(RunnerClient):
@@ -186,13 +217,8 @@ def check_iteration(rep: Report, prog: Program) -> None:
         fi = prog.func(q)
         for n in prog._own_nodes(fi.node):
             if isinstance(n, ast.Name) and n.id == "func" and isinstance(n.ctx, ast.Load):
-                parents = [c for c in prog._own_nodes(fi.node) if isinstance(c, ast.Call) and (c.func is n or n in c.args)]
-                okuse = False
-                for c in parents:
-                    if c.func is n:
-                        okuse = True
-                    elif any(t.func is not None and t.func.qual.endswith(":_call_with_timeout") for t in prog.resolve_call(c, fi)) and c.args and c.args[0] is n:
-                        okuse = True
+                parents = [c for c in prog._own_nodes(fi.node) if isinstance(c, ast.Call) and (c.func is n or n in c.args or any(k.value is n for k in c.keywords))]
+                okuse = op_use_ok(prog, fi, n, parents)
                 rep.instance("R1.2", f"{name}|func-use@{ast.unparse(parents[0])[:40] if parents else '?'}")
                 if okuse:
                     rep.ok("R1.2")
